@@ -50,7 +50,7 @@ pub fn output_tokens_for_impl(
                 crate_idents: &attr.crate_idents,
                 opts: &attr.opts,
             }
-            .analyze(input_fn.input_sig(), &mut generics_analyzer)
+            .analyze_member_fn(input_fn, &mut generics_analyzer)
         })
         .collect::<syn::Result<Vec<_>>>()?;
     let sub_attributes = analyze_sub_attributes(&attrs);
